@@ -34,9 +34,10 @@ EXPLANATION = ("Lean: matchglob's explicit-stack machine terminates and equals t
                "comments (thorough). PathMatch::match / simplifyPath are parameters (C31). Outside the model: tinyxml2, simplecpp "
                "comment tokenisation and the placement of inline comments (validated through the CLI only), plist output, polyspace.")
 THEOREMS = [
-    "Cppcheck.Glob.stack_eq_dfs", "Cppcheck.Glob.glob_sound", "Cppcheck.Glob.glob_eq_spec_partial",
-    "Cppcheck.Glob.glob_starstar_counterexample", "Cppcheck.Glob.glob_eq_spec_fixed",
-    "Cppcheck.Suppress.isSuppressed_matched_iff_spec", "Cppcheck.Suppress.isSuppressed_glob_counterexample",
+    "Cppcheck.Glob.stack_eq_dfs", "Cppcheck.Glob.glob_eq_spec", "Cppcheck.Glob.glob_eq_spec_fixed", "Cppcheck.Glob.glob_sound_pre",
+    "Cppcheck.Glob.glob_eq_spec_partial", "Cppcheck.Glob.glob_starstar_counterexample",
+    "Cppcheck.Suppress.isSuppressed_matched_iff_spec", "Cppcheck.Suppress.supprExact_eq",
+    "Cppcheck.Suppress.isSuppressed_starstar_regression",
     "Cppcheck.Suppress.listIsSuppressed_iff", "Cppcheck.Suppress.reported_iff_unsuppressed",
     "Cppcheck.Suppress.reported_iff_unsuppressed_nosafety", "Cppcheck.Suppress.reported_duptext_counterexample",
     "Cppcheck.Suppress.nofail_does_not_hide", "Cppcheck.Suppress.line_semantics",
@@ -461,10 +462,10 @@ def gate_dop(g, hline):
     derived = [w for w in t if not (w.startswith("sp=") or w.startswith("fm="))]
     keep = []
     for f, d in zip(g["fs"], derived):
-        skip, internal, librep, crit, text, fid, syms = d.split(":")
+        skip, internal, librep, crit, text, fid, syms, gfile = d.split(":")
         if skip == "1":
             continue
-        keep.append("%s %s %s %s %s %s %d - %s %d %s" % (internal, librep, crit, text, "1" if f["hasloc"] else "0", hx(f["file"]), f["line"], fid, f["hash"], syms))
+        keep.append("%s %s %s %s %s %s %d - %s %d %s" % (internal, librep, crit, text, "1" if f["hasloc"] else "0", gfile, f["line"], fid, f["hash"], syms))
     parts = ["gt", "1" if c["safety"] else "0", "1" if c["dup"] else "0", "1" if c["ug"] else "0", str(len(g["nomsg"]))]
     parts += [sup_fields(s) for s in g["nomsg"]]
     parts += [str(len(g["nofail"]))] + [sup_fields(s) for s in g["nofail"]]
@@ -510,9 +511,13 @@ def not_star_ok(p):
 def run(ctx, res):
     rng = ctx.rng
     thorough = ctx.tier == "thorough"
+    import time
+    t0 = time.time()
     core.prove(ctx, res, MODULES, THEOREMS)
     drv = ctx.driver("drv_c23")
     exe = ctx.harness("c23")
+    res.extra["prove_and_build_s"] = round(time.time() - t0, 1)
+    t0 = time.time()
     corpus = load_corpus()
     explored_f8 = []
 
@@ -522,17 +527,31 @@ def run(ctx, res):
     himpl, hmodel = run_pair(ctx, exe, drv, ops, lambda o, h: o, "glob", res)
     correspond(ctx, res, "matchglob", ops, himpl, hmodel,
                lambda op, out: any(w in unhx(op.split()[2]) for w in "*?") and op.split()[3] != "-")
+    selfcheck_bad = None
     for (ci, p, n), hi, mo in zip(cases, himpl, hmodel):
         t = tail_fields(mo)
-        real = head(hi).split()[1]
+        hf = head(hi).split()
+        real = hf[1]
         res.count("glob:" + ("match" if real == "1" else "nomatch"))
-        if tail_fields(hi).get("copy") != real and not os.environ.get("C23_MUTANT"):
-            res.oblig("harness-selfcheck:matchglob-copy", False, "correspondence", "scratch copy of matchglob differs from lib/utils.cpp on %r %r" % (p, n))
+        # the scratch copy inside the harness (used for the mutation experiments and as the model of the other variant)
+        # must be the function in lib/utils.cpp
+        if hf[3 if t.get("sw") == "1" else 5] != real and not os.environ.get("C23_MUTANT") and selfcheck_bad is None:
+            selfcheck_bad = (p, n)
         if ci == 0 and real != t.get("spec"):
-            key = KEY_F8 if (not_star_ok(p) and real == "0") else None
-            explored_f8.append((p, n))
+            key = KEY_F8 if (t.get("sw") == "0" and not_star_ok(p) and real == "0") else None
             res.violation("matchglob(%r, %r) = %s but the documented glob language (`*` any string, `?` any character) says %s" % (p, n, real, t.get("spec")),
                           dict(kind="glob", ci=ci, pattern=p, name=n, real=real, documented=t.get("spec")), concrete=True, key=key)
+    res.oblig("harness-selfcheck:matchglob-copy", selfcheck_bad is None, "correspondence",
+              "" if selfcheck_bad is None else "scratch copy of matchglob in harness/c23.cpp differs from lib/utils.cpp on %r %r (the code changed: update the copy and the model)" % selfcheck_bad)
+    # tightness of the pre-repair hypothesis, measured on the exhaustive part: every non-starOk pattern has a failing name
+    bad_pats, tight = set(), set()
+    for (ci, p, n), mo in zip(cases, hmodel):
+        t = tail_fields(mo)
+        if ci == 0 and t.get("ok") == "0" and len(p) <= 3:
+            bad_pats.add(p)
+            if t.get("pdfs") != t.get("spec"):
+                tight.add(p)
+    res.extra["pre_repair_hypothesis_tight_on"] = "%d of %d non-starOk patterns of length <= 3 have an explored name on which the pre-repair algorithm fails" % (len(tight), len(bad_pats))
     vops = ["vg " + hx(p) for p in sorted(set(p for _, p, _ in cases))[:4000]]
     vi, vm = run_pair(ctx, exe, drv, vops, lambda o, h: o, "validglob", res)
     correspond(ctx, res, "isValidGlobPattern", vops, vi, vm, lambda op, out: "2a" in op)
@@ -652,8 +671,11 @@ def run(ctx, res):
     gs = [c["gate"] for c in corpus.get("gate", [])] + [gen_gate(rng) for _ in range(1500 if thorough else 350)]
     run_gates(ctx, res, exe, drv, gs, "CppCheckLogger::reportErr")
 
+    res.extra["inprocess_ties_s"] = round(time.time() - t0, 1)
+    t0 = time.time()
     # ---- CLI: inline suppressions -----------------------------------------------------------------------------------
     cli_cases(ctx, res, drv, corpus, thorough)
+    res.extra["cli_s"] = round(time.time() - t0, 1)
 
     # ---- violation search when something above is broken but no failing input is known yet ---------------------
     if any(not o["ok"] for o in res.obligations) and not any(v["concrete"] and v.get("key") is None for v in res.violations):
@@ -699,7 +721,7 @@ def run_gates(ctx, res, exe, drv, gs, name):
         res.count("gate:findings", len(kept))
         res.count("gate:reported", len(reported))
         for j, d in enumerate(dk):
-            skip, internal, librep, crit, text, fid, syms = d
+            skip, internal, librep, crit, text, fid, syms, gfile = d
             unsup = uns[j] == "1"
             if internal == "1":
                 want = True
@@ -712,7 +734,8 @@ def run_gates(ctx, res, exe, drv, gs, name):
             else:
                 want = g["cfg"]["dup"] or text not in seen_unsup_text
             # the index reported by both sides is the first finding equal to this one: judge only first occurrences
-            first = [x for x in range(len(dk)) if dk[x] == d and g["fs"][kept[x]] == g["fs"][kept[j]]][0]
+            mk = lambda x: (tuple(dk[x]), g["fs"][kept[x]]["hasloc"], g["fs"][kept[x]]["line"], g["fs"][kept[x]]["hash"])   # the fields the gate reads
+            first = [x for x in range(len(dk)) if mk(x) == mk(j)][0]
             if first == j and want is not None and (j in reported) != want:
                 key = None
                 if want and not (j in reported) and (text in seen_sup_text) and not g["cfg"]["dup"]:
@@ -735,8 +758,8 @@ FINDING_STMT = "a[%d] = 0;"        # arrayIndexOutOfBounds on `int a[2]` for ind
 
 
 def gen_cli_case(rng, k):
-    """a source + header with planted arrayIndexOutOfBounds / zerodiv findings and inline suppression comments.
-    Returns dict(files={name: text}, plan=[(file, line, id, macro, suppressed-by-documented-rule)])"""
+    """a source + header with planted arrayIndexOutOfBounds / zerodiv / nullPointer findings and inline suppression
+    comments.  Returns dict(files={name: text}, plan=[dict(file, line, id, suppressed (by the documented rules), why)])"""
     files = {}
     plan = []
     for fname in ("t%d.c" % k, "t%d.h" % k):
@@ -746,10 +769,14 @@ def gen_cli_case(rng, k):
             L.append(s)
             return len(L)
         filesup = None
-        if rng.random() < 0.2:
-            filesup = rng.choice(["arrayIndexOutOfBounds", "zerodiv", "*", "array*", "[arrayIndexOutOfBounds,zerodiv]"])
+        if rng.random() < 0.25:
+            # documented: "// cppcheck-suppress-file id" for the whole file; the implementation wants it at the top of the file
+            filesup = rng.choice(["arrayIndexOutOfBounds", "zerodiv", "*", "array*", "[arrayIndexOutOfBounds,zerodiv]", "nullPointer"])
             add("// cppcheck-suppress-file " + filesup)
-        if not ishdr:
+        if ishdr:
+            add("#ifndef T%d_H" % k)
+            add("#define T%d_H" % k)
+        else:
             add('#include "t%d.h"' % k)
         macro = None
         msup = None
@@ -760,18 +787,21 @@ def gen_cli_case(rng, k):
             macro = "BAD%s%d" % ("H" if ishdr else "C", k)
             add("#define %s(arr) arr[5] = 0" % macro)
         nf = rng.choice([1, 2, 2, 3])
-        block = None
         for fi in range(nf):
             add("%svoid f%s%d_%d(int x) {" % ("static inline " if ishdr else "", "h" if ishdr else "c", k, fi))
             add("    int a[2] = {0, 0};")
             nst = rng.choice([1, 2, 3])
             for _ in range(nst):
-                kind = rng.choice(["aiob", "aiob", "zerodiv", "macro" if macro else "aiob"])
-                fid = "zerodiv" if kind == "zerodiv" else "arrayIndexOutOfBounds"
-                stmt = {"aiob": "a[%d] = x;" % rng.choice([2, 3, 7]), "zerodiv": "x = x / 0;", "macro": "%s(a);" % (macro or "")}[kind]
-                mode = rng.choice(["none", "none", "same", "prev", "prev-gap", "prev-other", "wrongid", "after", "block", "multi", "sym-ok", "sym-bad", "glob", "starstar"])
+                mode = rng.choice(["none", "none", "same", "prev", "prev-gap", "prev-other", "wrongid", "after", "block", "block-outside", "multi",
+                                   "sym-ok", "sym-bad", "sym-glob", "glob", "starstar", "brace"])
+                kind = rng.choice(["aiob", "aiob", "zerodiv", "macro" if macro else "aiob", "nullp"])
+                if mode.startswith("sym"):
+                    kind = "nullp"
+                fid = {"aiob": "arrayIndexOutOfBounds", "macro": "arrayIndexOutOfBounds", "zerodiv": "zerodiv", "nullp": "nullPointer"}[kind]
+                stmt = {"aiob": "a[%d] = x;" % rng.choice([2, 3, 7]), "zerodiv": "x = x / 0;", "macro": "%s(a);" % (macro or ""),
+                        "nullp": "{ int *q = 0; *q = x; }"}[kind]
+                other = "zerodiv" if fid != "zerodiv" else "arrayIndexOutOfBounds"
                 sup = False
-                why = mode
                 if mode == "none":
                     ln = add("    " + stmt)
                 elif mode == "same":
@@ -783,46 +813,46 @@ def gen_cli_case(rng, k):
                 elif mode == "prev-other":
                     add("    // cppcheck-suppress %s" % fid); add("    x++;"); ln = add("    " + stmt)
                 elif mode == "wrongid":
-                    add("    // cppcheck-suppress %s" % ("zerodiv" if fid != "zerodiv" else "arrayIndexOutOfBounds")); ln = add("    " + stmt)
+                    add("    // cppcheck-suppress %s" % other); ln = add("    " + stmt)
                 elif mode == "after":
                     ln = add("    " + stmt); add("    // cppcheck-suppress %s" % fid); add("    x++;")
                 elif mode == "block":
                     add("    // cppcheck-suppress-begin %s" % fid); add("    x++;"); ln = add("    " + stmt); add("    x--;"); add("    // cppcheck-suppress-end %s" % fid); sup = True
+                elif mode == "block-outside":
+                    add("    // cppcheck-suppress-begin %s" % fid); add("    x++;"); add("    // cppcheck-suppress-end %s" % fid); ln = add("    " + stmt)
                 elif mode == "multi":
-                    add("    // cppcheck-suppress[zerodiv, arrayIndexOutOfBounds]"); ln = add("    " + stmt); sup = True
-                elif mode == "sym-ok" and kind != "zerodiv":
-                    add("    // cppcheck-suppress %s symbolName=a" % fid); ln = add("    " + stmt); sup = True
-                elif mode == "sym-bad" and kind != "zerodiv":
+                    add("    // cppcheck-suppress[%s, %s]" % (other, fid)); ln = add("    " + stmt); sup = True
+                elif mode == "sym-ok":
+                    add("    // cppcheck-suppress %s symbolName=q" % fid); ln = add("    " + stmt); sup = True
+                elif mode == "sym-bad":
                     add("    // cppcheck-suppress %s symbolName=b" % fid); ln = add("    " + stmt)
+                elif mode == "sym-glob":
+                    add("    // cppcheck-suppress %s symbolName=?" % fid); ln = add("    " + stmt); sup = True
                 elif mode == "glob":
                     add("    // cppcheck-suppress %s*" % fid[:4]); ln = add("    " + stmt); sup = True
                 elif mode == "starstar":
-                    add("    // cppcheck-suppress %s**%s" % (fid[:3], fid[5:])); ln = add("    " + stmt); sup = True; why = "starstar"
-                else:
-                    ln = add("    " + stmt); why = "none"
+                    add("    // cppcheck-suppress %s**%s" % (fid[:3], fid[5:])); ln = add("    " + stmt); sup = True
+                elif mode == "brace":
+                    # backwards-compatibility special case: `{` on its own line followed by the comment covers that line and the next
+                    add("    if (x)"); add("    { // cppcheck-suppress %s" % fid); ln = add("        " + stmt); add("    }"); sup = True
                 fsup = False
                 if filesup:
                     pats = [x.strip() for x in filesup.strip("[]").split(",")]
                     fsup = any(re.fullmatch(p.replace("*", ".*"), fid) for p in pats)
                 msupd = (kind == "macro" and msup == fid)
-                plan.append(dict(file=fname, line=ln, id=fid, macro=(macro if kind == "macro" else None), suppressed=(sup or fsup or msupd), why=why))
+                plan.append(dict(file=fname, line=ln, id=fid, macro=(macro if kind == "macro" else None), suppressed=(sup or fsup or msupd), why=mode))
             add("    (void)a; (void)x;")
             add("}")
         if ishdr:
-            L.insert(0, "#ifndef T%d_H" % k)
-            L.insert(1, "#define T%d_H" % k)
-            for p in plan:
-                if p["file"] == fname:
-                    p["line"] += 2
             L.append("#endif")
         files[fname] = "\n".join(L) + "\n"
     return dict(files=files, plan=plan)
 
 
-def cli_cases(ctx, res, drv, corpus, thorough):
+def cli_cases(ctx, res, drv, corpus, thorough, generate=True):
     rng = ctx.rng
     n = 60 if thorough else 6
-    cases = [c["cli"] for c in corpus.get("cli", [])] + [gen_cli_case(rng, k) for k in range(n)]
+    cases = [c["cli"] for c in corpus.get("cli", [])] + ([gen_cli_case(rng, k) for k in range(n)] if generate else [])
     exe = ctx.cppcheck
     nf = 0
     for k, c in enumerate(cases):
@@ -965,11 +995,7 @@ def replay(ctx, res, rp):
     elif kind in ("cli", "cli-duptext"):
         res2 = core.Result(ctx, res.level)
         corpus = dict(cli=[dict(cli=rp["cli"])]) if kind == "cli" else dict(cli_duptext=rp["witness"])
-        class R:  # deterministic empty generator part
-            pass
-        ctx2 = ctx
-        saved = ctx.tier
-        cli_replay(ctx, res2, corpus)
+        cli_cases(ctx, res2, drv, corpus, False, generate=False)
         for v in res2.violations:
             print(v["what"][:500])
         bad = 1 if res2.violations else 0
@@ -978,20 +1004,3 @@ def replay(ctx, res, rp):
         return 2
     print("replay: %s" % ("still fails" if bad else "does not fail"))
     return bad
-
-
-def cli_replay(ctx, res, corpus):
-    import random
-    saved = ctx.rng
-    try:
-        ctx.rng = random.Random(0)
-        # run only the stored case(s): temporarily make the generator produce nothing
-        global gen_cli_case
-        g = gen_cli_case
-        gen_cli_case = lambda rng, k: dict(files={}, plan=[])
-        try:
-            cli_cases(ctx, res, None, corpus, False)
-        finally:
-            gen_cli_case = g
-    finally:
-        ctx.rng = saved
